@@ -72,6 +72,7 @@ type c06Case struct {
 	Class, Alpha string
 	W, H         int
 	Workers      int // 0 = default, else forced worker count for the row-parallel encoder
+	Sparse       bool // flat content + forced size/PSNR search
 }
 
 func runC06(c *ev.Ctx) {
@@ -120,6 +121,16 @@ func runC06(c *ev.Ctx) {
 		}
 		cases = append(cases, ev.Case{Idx: i, Desc: fmt.Sprintf("%+v", cc), Data: cc})
 	}
+	// Very few coded macroblocks (flat content) under a size search on the serial path: token statistics so
+	// sparse that the probability updates decided in mid-frame are withdrawn at the end of the frame. Measured
+	// on the tree before repo commit 64d432f (D23): about 0.2% of these draws decode to other pixels than the
+	// encoder reconstructed.
+	for k := 0; k < c.N(2500, 60000); k++ {
+		i := len(cases)
+		r := rng(c, i)
+		cc := c06Case{Class: pickS(r, "pal1", "flat", "flat", "sparsemb", "pal2"), Alpha: "opaque", W: 150 + r.Intn(280), H: 130 + r.Intn(140), Workers: pickI(r, 0, 1, 2), Sparse: true}
+		cases = append(cases, ev.Case{Idx: i, Desc: fmt.Sprintf("%+v", cc), Data: cc})
+	}
 	c.RunCases(cases, 0, func(cs ev.Case) {
 		g := gid()
 		cc := cs.Data.(c06Case)
@@ -147,7 +158,12 @@ func c06One(c *ev.Ctx, cs ev.Case, pc *pairCover) {
 	} else if r.Intn(3) == 0 { // unreachable / hard-to-reach targets
 		o.TargetSize = pickI(r, 1, 40, 300, 5000000)
 	}
-	if cc.W*cc.H > 100000 {
+	if cc.Sparse {
+		if r.Intn(8) != 0 { // else: whatever the generator drew
+			o.TargetSize = pickI(r, 150, 1000, 1000000)
+		}
+		o.Pass = min(o.Pass, 4)
+	} else if cc.W*cc.H > 100000 {
 		o.Pass = min(o.Pass, 2)
 		if r.Intn(4) != 0 {
 			o.TargetSize, o.TargetPSNR = 0, 0
